@@ -173,6 +173,27 @@ def main():
         out_ = Parallel(n_jobs=2, backend="verif_asking_" + c["base"])(delayed(probe_nested)(i) for i in range(4))
         return {"workers": out_, "caller_pid": os.getpid()}
 
+    def run_scope(c):
+        """{"mode":"scope","logdir":d,"inner":k,"after":n}: `with parallel_config(n_jobs=k): Parallel()(tasks)` and then, outside
+        that block, Parallel(n_jobs=n)(tasks) on the SAME loky executor (worker environment pinned by the enclosing
+        parallel_config('loky', inner_max_num_threads=1)); the tasks are the barrier-synchronised ones of the C15 nested runs"""
+        import c15_nest
+        from joblib.externals.loky import reusable_executor
+        d = c["logdir"]
+        with parallel_config("loky", inner_max_num_threads=1):
+            with parallel_config(n_jobs=c["inner"]):
+                p1 = Parallel()
+                n1 = p1.n_jobs
+                p1(delayed(c15_nest.task)(d, "q0", i, min(n1, c["inner"] + 2), None) for i in range(c["inner"] + 2))
+            ex1 = id(reusable_executor._executor)
+            p2 = Parallel(n_jobs=c["after"])
+            n2 = p2.n_jobs
+            p2(delayed(c15_nest.task)(d, "q1", i, min(n2, c["after"] + 2), None) for i in range(c["after"] + 2))
+            ex2 = id(reusable_executor._executor)
+            mw = reusable_executor._executor._max_workers
+        ev = [json.loads(l) for l in open(os.path.join(d, "events.jsonl")) if l.strip()]
+        return {"n1": n1, "n2": n2, "executor_reused": ex1 == ex2, "max_workers_after": mw, "events": ev}
+
     def run_tempdir(c):
         """{"mode":"tempdir","arg":path|null}: the unit _get_temp_dir(name, arg)"""
         return {"parent": os.path.dirname(mred._get_temp_dir("verif_unit", c["arg"])[0]), "default_parent": default_parent(),
@@ -184,7 +205,7 @@ def main():
             continue
         c = json.loads(line)
         try:
-            r = {"ctx": run_ctx, "life": run_life, "pool": run_pool, "tempdir": run_tempdir, "nestednjobs": run_nestednjobs}[c["mode"]](c)
+            r = {"ctx": run_ctx, "life": run_life, "pool": run_pool, "tempdir": run_tempdir, "nestednjobs": run_nestednjobs, "scope": run_scope}[c["mode"]](c)
         except BaseException as e:  # noqa
             r = {"harness_error": repr(e)}
         out.write(json.dumps(r) + "\n")
